@@ -450,69 +450,48 @@ theorem intSum_cons (v : Val) (vs : List Val) : intSum (v :: vs) = intOf v + int
   rw [List.map_cons, List.foldl_cons, foldl_add_acc]
   omega
 
-/-- no intermediate sum leaves the 64-bit range (at the first that does, the operator switches to
-its float accumulator for good) -/
-def prefixOK (s : Int) : List Val → Bool
-  | [] => true
-  | v :: vs => inI64 (s + intOf v) && prefixOK (s + intOf v) vs
-
-theorem foldl_update_sumInt (s : Int) (l : List Val) (hint : l.all isInt = true) (hok : prefixOK s l = true) :
+theorem foldl_update_sumInt (s : Int) (l : List Val) (hint : l.all isInt = true) :
     l.foldl St.update (.sumInt s) = .sumInt (s + intSum l) := by
   induction l generalizing s with
   | nil => simp [intSum]
   | cons v vs ih =>
     simp only [List.all_cons, Bool.and_eq_true] at hint
-    simp only [prefixOK, Bool.and_eq_true] at hok
     cases v with
     | null => simp [isInt] at hint
     | str t => simp [isInt] at hint
     | int i =>
-      simp only [intOf] at hok
-      simp only [List.foldl_cons, St.update, sumIntStep, hok.1, if_true]
-      rw [ih (s + i) hint.2 hok.2, intSum_cons]
+      simp only [List.foldl_cons, St.update, sumIntStep]
+      rw [ih (s + i) hint.2, intSum_cons]
       simp only [intOf]
       congr 1
       omega
 
-theorem prefixOK_total (s : Int) (l : List Val) (hs : inI64 s = true) (hok : prefixOK s l = true) :
-    inI64 (s + intSum l) = true := by
-  induction l generalizing s with
-  | nil => simpa [intSum] using hs
-  | cons v vs ih =>
-    simp only [prefixOK, Bool.and_eq_true] at hok
-    rw [intSum_cons, ← Int.add_assoc]
-    exact ih _ hok.1 hok.2
-
-/-- hypothesis of the partial theorem: every non-null value is an integer and the running sum
-stays inside `i64` -/
-def sumOK (vs : List Val) : Bool := (nonNull vs).all isInt && prefixOK 0 (nonNull vs)
-
-/-- P (3): over integers whose running sum stays in range, the coded `sum` is the exact integer sum. -/
-theorem sum_coded_partial (vs : List Val) (h : sumOK vs = true) :
-    colAgg .sum false vs = .int (intSum (nonNull vs)) := by
-  simp only [sumOK, Bool.and_eq_true] at h
+/-- F (3), after the repair (exact 128-bit accumulation): over integers the coded `sum` is the
+exact integer total whenever that fits `i64` — whatever the intermediate sums do — and the float
+nearest to the exact total otherwise. -/
+theorem sum_coded_ints (vs : List Val) (hint : (nonNull vs).all isInt = true) :
+    colAgg .sum false vs = sumOut (intSum (nonNull vs)) := by
   unfold colAgg
   rw [foldl_feed_nonNull _ _ (by simp)]
   simp only [St.init]
-  rw [foldl_update_sumInt 0 _ h.1 h.2]
+  rw [foldl_update_sumInt 0 _ hint]
   simp [St.finalize]
 
-/-- P (3): … and that is what the specification demands. -/
-theorem sum_eq_spec_partial (vs : List Val) (h : sumOK vs = true) :
-    specAgg .sum false vs = .ok (colAgg .sum false vs) := by
-  rw [sum_coded_partial vs h]
-  simp only [sumOK, Bool.and_eq_true] at h
-  have hr := prefixOK_total 0 _ (by decide) h.2
-  simp only [Int.zero_add] at hr
-  simp [specAgg, h.1, hr]
+/-- F (3): … which is what the specification demands where it demands anything (an integer total
+outside `i64` is not constrained). -/
+theorem sum_eq_spec_ints (vs : List Val) (hint : (nonNull vs).all isInt = true) :
+    specAgg .sum false vs = .ok (colAgg .sum false vs) ∨ specAgg .sum false vs = .any := by
+  rw [sum_coded_ints vs hint]
+  by_cases hr : inI64 (intSum (nonNull vs)) = true
+  · left; simp [specAgg, hint, hr, sumOut]
+  · right; simp [specAgg, hint, hr]
 
-/-- W: the full statement is false. Numeric strings are parsed and summed as floats (specification:
-type error); text is skipped silently; after an intermediate overflow the result is a float
-although the sum fits. -/
+/-- W: the full statement (all inputs) is false. Numeric strings are parsed and summed as floats
+(specification: type error); text is skipped silently. -/
 theorem sum_not_spec :
-    ¬ ∀ vs : List Val, specAgg .sum false vs = .ok (colAgg .sum false vs) := by
+    ¬ ∀ vs : List Val, specAgg .sum false vs = .ok (colAgg .sum false vs) ∨ specAgg .sum false vs = .any := by
   intro h
-  exact absurd (h [.str "1", .str "2"]) (by decide)
+  exact absurd (h [.str "1", .str "2"]) (by decide +kernel)
 
 theorem sum_numeric_strings_witness :
     colAgg .sum false [.str "1", .str "2"] = .float 0x4008000000000000 ∧
@@ -523,137 +502,187 @@ theorem sum_text_skipped_witness :
     colAgg .sum false [.str "a", .int 3] = .int 3 ∧ specAgg .sum false [.str "a", .int 3] = .err "type" := by
   refine ⟨by decide, by decide⟩
 
-theorem sum_prefix_overflow_witness :
-    colAgg .sum false [.int (2 ^ 63 - 1), .int 1, .int (-5)] = .float 0x43e0000000000000 ∧
-    specAgg .sum false [.int (2 ^ 63 - 1), .int 1, .int (-5)] = .ok (.int (2 ^ 63 - 5)) := by
-  refine ⟨by decide +kernel, by decide⟩
-
-/-- once in the float accumulator, the sum stays there -/
-theorem foldl_update_sumFloat (f : Nat) (l : List Val) :
-    ∃ f', l.foldl St.update (.sumFloat f) = .sumFloat f' := by
-  induction l generalizing f with
-  | nil => exact ⟨f, rfl⟩
-  | cons v vs ih => simp only [List.foldl_cons, St.update]; exact ih _
-
-/-- F (3), after the repair of the overflow: over integers the coded `sum` never fails — it is the
-exact integer sum, or (from the first intermediate overflow on) a float. -/
-theorem sum_ints_total (vs : List Val) (hint : (nonNull vs).all isInt = true) :
-    colAgg .sum false vs = .int (intSum (nonNull vs)) ∨ ∃ f, colAgg .sum false vs = .float f := by
-  unfold colAgg
-  rw [foldl_feed_nonNull _ _ (by simp)]
-  simp only [St.init]
-  have key : ∀ (l : List Val) (s : Int), l.all isInt = true →
-      (l.foldl St.update (.sumInt s) = .sumInt (s + intSum l)) ∨ ∃ f, l.foldl St.update (.sumInt s) = .sumFloat f := by
-    intro l
-    induction l with
-    | nil => intro s _; left; simp [intSum]
-    | cons v vs ih =>
-      intro s hl
-      simp only [List.all_cons, Bool.and_eq_true] at hl
-      cases v with
-      | null => simp [isInt] at hl
-      | str t => simp [isInt] at hl
-      | int i =>
-        simp only [List.foldl_cons, St.update, sumIntStep]
-        by_cases hin : inI64 (s + i) = true
-        · simp only [hin, if_true]
-          rcases ih (s + i) hl.2 with h | h
-          · left; rw [h, intSum_cons]; simp only [intOf]; congr 1; omega
-          · right; exact h
-        · simp only [hin, Bool.false_eq_true, if_false]
-          right
-          exact foldl_update_sumFloat _ _
-  rcases key (nonNull vs) 0 hint with h | ⟨f, h⟩
-  · left; rw [h]; simp [St.finalize]
-  · right; exact ⟨f, by rw [h]; simp [St.finalize]⟩
-
-/-- N: the hypothesis holds on a column with nulls and negative numbers; both sides are 6. -/
-theorem sum_nonvacuous : sumOK [.int 10, .null, .int (-4)] = true ∧ colAgg .sum false [.int 10, .null, .int (-4)] = .int 6 := by
-  refine ⟨by decide, by decide⟩
+/-- N: an intermediate sum outside `i64` does not disturb a total that fits; a total outside
+`i64` comes back as the nearest float. -/
+theorem sum_nonvacuous :
+    colAgg .sum false [.int (2 ^ 63 - 1), .int 1, .null, .int (-5)] = .int (2 ^ 63 - 5) ∧
+    specAgg .sum false [.int (2 ^ 63 - 1), .int 1, .null, .int (-5)] = .ok (.int (2 ^ 63 - 5)) ∧
+    colAgg .sum false [.int (2 ^ 63 - 1), .int (2 ^ 63 - 1)] = .float 0x43f0000000000000 ∧
+    specAgg .sum false [.int (2 ^ 63 - 1), .int (2 ^ 63 - 1)] = .any := by
+  refine ⟨by decide, by decide, by decide +kernel, by decide⟩
 
 /-! ### min / max -/
 
-def IsMinOf (m : Int) (l : List Val) : Prop := .int m ∈ l ∧ ∀ x : Int, .int x ∈ l → m ≤ x
-def IsMaxOf (m : Int) (l : List Val) : Prop := .int m ∈ l ∧ ∀ x : Int, .int x ∈ l → x ≤ m
+theorem string_compare_lt (x y : String) : compare x y = .lt ↔ x < y := by
+  show String.compare x y = .lt ↔ _
+  unfold String.compare compareOfLessAndEq
+  by_cases h : x < y
+  · simp [h]
+  · by_cases he : x = y <;> simp [h, he]
 
-theorem foldl_minStep_ints (c : Int) (l : List Val) (hint : l.all isInt = true) :
-    ∃ m, l.foldl minStep (some (.int c)) = some (.int m) ∧ IsMinOf m (.int c :: l) := by
+theorem string_compare_gt (x y : String) : compare x y = .gt ↔ y < x := by
+  show String.compare x y = .gt ↔ _
+  unfold String.compare compareOfLessAndEq
+  by_cases h : x < y
+  · simp [h]; exact String.lt_asymm h
+  · by_cases he : x = y
+    · subst he; simp [String.lt_irrefl]
+    · simp only [h, he, if_false, true_iff]
+      apply Classical.byContradiction; intro hn
+      exact he (String.le_antisymm (String.not_lt.1 hn) (String.not_lt.1 h))
+
+/-- the specification's order is a strict total order on the non-null values -/
+theorem specLt_irrefl (a : Val) : specLt a a = false := by
+  cases a <;> simp [specLt, String.lt_irrefl]
+
+theorem specLt_trans (a b c : Val) (h1 : specLt a b = true) (h2 : specLt b c = true) : specLt a c = true := by
+  cases a <;> cases b <;> cases c <;> simp_all [specLt]
+  · omega
+  · exact String.lt_trans h1 h2
+
+theorem specLt_trichotomy (a b : Val) (ha : a ≠ .null) (hb : b ≠ .null) :
+    specLt a b = true ∨ a = b ∨ specLt b a = true := by
+  cases a <;> cases b <;> simp_all [specLt]
+  · omega
+  · rename_i x y
+    by_cases h : x < y
+    · exact Or.inl h
+    · by_cases h2 : y < x
+      · exact Or.inr (Or.inr h2)
+      · exact Or.inr (Or.inl (String.le_antisymm (String.not_lt.1 h2) (String.not_lt.1 h)))
+
+/-- a value the coded comparison treats as what it is: an integer, or text that does not read as
+a number -/
+def isPlain : Val → Bool
+  | .int _ => true
+  | .str s => (parseF64 s.toList).isNone
+  | .null => false
+
+theorem isPlain_ne_null (v : Val) (h : isPlain v = true) : v ≠ .null := by
+  cases v <;> simp_all [isPlain]
+
+/-- on plain values the coded comparison decides the specification's order -/
+theorem cmpAgg_lt_iff (a b : Val) (ha : isPlain a = true) (hb : isPlain b = true) :
+    cmpAgg a b = some .lt ↔ specLt a b = true := by
+  cases a <;> cases b <;> simp_all [isPlain, cmpAgg, specLt, cmpStrStr, cmpStrInt, cmpIntStr, Int.compare_eq_lt,
+    string_compare_lt]
+
+theorem cmpAgg_gt_iff (a b : Val) (ha : isPlain a = true) (hb : isPlain b = true) :
+    cmpAgg a b = some .gt ↔ specLt b a = true := by
+  cases a <;> cases b <;> simp_all [isPlain, cmpAgg, specLt, cmpStrStr, cmpStrInt, cmpIntStr, Int.compare_eq_gt,
+    string_compare_gt]
+
+def IsMinOf (m : Val) (l : List Val) : Prop := m ∈ l ∧ ∀ x ∈ l, specLt x m = false
+def IsMaxOf (m : Val) (l : List Val) : Prop := m ∈ l ∧ ∀ x ∈ l, specLt m x = false
+
+theorem isMinOf_unique (m m' : Val) (l : List Val) (hl : ∀ x ∈ l, x ≠ .null) (h : IsMinOf m l) (h' : IsMinOf m' l) :
+    m = m' := by
+  rcases specLt_trichotomy m m' (hl _ h.1) (hl _ h'.1) with h1 | h1 | h1
+  · have := h'.2 m h.1; simp_all
+  · exact h1
+  · have := h.2 m' h'.1; simp_all
+
+theorem isMaxOf_unique (m m' : Val) (l : List Val) (hl : ∀ x ∈ l, x ≠ .null) (h : IsMaxOf m l) (h' : IsMaxOf m' l) :
+    m = m' := by
+  rcases specLt_trichotomy m m' (hl _ h.1) (hl _ h'.1) with h1 | h1 | h1
+  · have := h.2 m' h'.1; simp_all
+  · exact h1
+  · have := h'.2 m h.1; simp_all
+
+theorem not_lt_of_min_step (c v m : Val) (hc : c ≠ .null) (hm : m ≠ .null)
+    (hvc : specLt v c = false) (hcm : specLt c m = false) : specLt v m = false := by
+  cases hvm : specLt v m with
+  | false => rfl
+  | true =>
+    rcases specLt_trichotomy c m hc hm with h | h | h
+    · simp_all
+    · subst h; simp_all
+    · have := specLt_trans v m c hvm h; simp_all
+
+theorem foldl_minStep_plain (c : Val) (l : List Val) (hc : isPlain c = true) (hl : l.all isPlain = true) :
+    ∃ m, l.foldl minStep (some c) = some m ∧ IsMinOf m (c :: l) := by
   induction l generalizing c with
-  | nil => exact ⟨c, rfl, by simp [IsMinOf]⟩
+  | nil => exact ⟨c, rfl, by simp [IsMinOf, specLt_irrefl]⟩
   | cons v vs ih =>
-    simp only [List.all_cons, Bool.and_eq_true] at hint
-    cases v with
-    | null => simp [isInt] at hint
-    | str t => simp [isInt] at hint
-    | int i =>
-      simp only [List.foldl_cons, minStep, cmpAgg, Option.some.injEq, Int.compare_eq_lt]
-      by_cases hlt : i < c
-      · obtain ⟨m, hm, hmem, hmin⟩ := ih i hint.2
-        refine ⟨m, by simpa [hlt] using hm, ?_, ?_⟩
-        · simp only [List.mem_cons] at hmem ⊢
-          rcases hmem with h | h
-          · exact Or.inr (Or.inl h)
-          · exact Or.inr (Or.inr h)
-        · intro x hx
-          simp only [List.mem_cons, Val.int.injEq] at hx
-          rcases hx with rfl | rfl | hx
-          · have := hmin i (by simp)
-            omega
-          · exact hmin x (by simp)
-          · exact hmin x (by simp [hx])
-      · obtain ⟨m, hm, hmem, hmin⟩ := ih c hint.2
-        refine ⟨m, by simpa [hlt] using hm, ?_, ?_⟩
-        · simp only [List.mem_cons] at hmem ⊢
-          rcases hmem with h | h
-          · exact Or.inl h
-          · exact Or.inr (Or.inr h)
-        · intro x hx
-          simp only [List.mem_cons, Val.int.injEq] at hx
-          rcases hx with rfl | rfl | hx
-          · exact hmin x (by simp)
-          · have := hmin c (by simp)
-            omega
-          · exact hmin x (by simp [hx])
+    simp only [List.all_cons, Bool.and_eq_true] at hl
+    simp only [List.foldl_cons, minStep]
+    by_cases hlt : specLt v c = true
+    · have hcmp : cmpAgg v c = some .lt := (cmpAgg_lt_iff v c hl.1 hc).2 hlt
+      simp only [hcmp, if_true]
+      obtain ⟨m, hm, hmem, hmin⟩ := ih v hl.1 hl.2
+      refine ⟨m, hm, ?_, ?_⟩
+      · simp only [List.mem_cons] at hmem ⊢
+        rcases hmem with h | h
+        · exact Or.inr (Or.inl h)
+        · exact Or.inr (Or.inr h)
+      · intro x hx
+        simp only [List.mem_cons] at hx
+        rcases hx with rfl | rfl | hx
+        · -- c is not below m: otherwise v < c < m
+          cases hcm : specLt x m with
+          | false => rfl
+          | true =>
+            have := specLt_trans v x m hlt hcm
+            have := hmin v (by simp)
+            simp_all
+        · exact hmin x (by simp)
+        · exact hmin x (by simp [hx])
+    · have hcmp : ¬ cmpAgg v c = some .lt := fun h => hlt ((cmpAgg_lt_iff v c hl.1 hc).1 h)
+      simp only [hcmp, if_false]
+      obtain ⟨m, hm, hmem, hmin⟩ := ih c hc hl.2
+      have hmnn : m ≠ .null := by
+        simp only [List.mem_cons] at hmem
+        rcases hmem with rfl | h
+        · exact isPlain_ne_null _ hc
+        · exact isPlain_ne_null _ (List.all_eq_true.1 hl.2 _ h)
+      refine ⟨m, hm, ?_, ?_⟩
+      · simp only [List.mem_cons] at hmem ⊢
+        rcases hmem with h | h
+        · exact Or.inl h
+        · exact Or.inr (Or.inr h)
+      · intro x hx
+        simp only [List.mem_cons] at hx
+        rcases hx with rfl | rfl | hx
+        · exact hmin x (by simp)
+        · exact not_lt_of_min_step c x m (isPlain_ne_null _ hc) hmnn (by simpa using hlt) (hmin c (by simp))
+        · exact hmin x (by simp [hx])
 
-theorem specMin_ints (v : Val) (l : List Val) (hint : (v :: l).all isInt = true) :
-    ∃ m, specMin (v :: l) = some (.int m) ∧ IsMinOf m (v :: l) := by
+theorem specMin_isMin (v : Val) (l : List Val) (hl : ∀ x ∈ v :: l, x ≠ .null) :
+    ∃ m, specMin (v :: l) = some m ∧ IsMinOf m (v :: l) := by
   induction l generalizing v with
-  | nil =>
-    cases v with
-    | null => simp [isInt] at hint
-    | str t => simp [isInt] at hint
-    | int i => exact ⟨i, rfl, by simp [IsMinOf]⟩
+  | nil => exact ⟨v, rfl, by simp [IsMinOf, specLt_irrefl]⟩
   | cons w ws ih =>
-    simp only [List.all_cons, Bool.and_eq_true] at hint
-    obtain ⟨m, hm, hmem, hmin⟩ := ih w (by simp [hint.2.1, hint.2.2])
-    cases v with
-    | null => simp [isInt] at hint
-    | str t => simp [isInt] at hint
-    | int i =>
-      rw [specMin, hm]
-      simp only [specLt, decide_eq_true_eq]
-      by_cases hlt : m < i
-      · refine ⟨m, by simp [hlt], List.mem_cons_of_mem _ hmem, ?_⟩
-        intro x hx
-        simp only [List.mem_cons, Val.int.injEq] at hx
-        rcases hx with rfl | hx
-        · omega
-        · exact hmin x (by simpa using hx)
-      · refine ⟨i, by simp [hlt], by simp, ?_⟩
-        intro x hx
-        simp only [List.mem_cons, Val.int.injEq] at hx
-        rcases hx with rfl | hx
-        · omega
-        · have := hmin x (by simpa using hx)
-          omega
+    obtain ⟨m, hm, hmem, hmin⟩ := ih w (fun x hx => hl x (List.mem_cons_of_mem _ hx))
+    have hmnn : m ≠ .null := hl m (List.mem_cons_of_mem _ hmem)
+    rw [specMin, hm]
+    simp only
+    by_cases hlt : specLt m v = true
+    · refine ⟨m, by simp [hlt], List.mem_cons_of_mem _ hmem, ?_⟩
+      intro x hx
+      simp only [List.mem_cons] at hx
+      rcases hx with rfl | hx
+      · cases h : specLt x m with
+        | false => rfl
+        | true => have := specLt_trans x m x h hlt; simp [specLt_irrefl] at this
+      · exact hmin x (by simpa using hx)
+    · refine ⟨v, by simp [hlt], by simp, ?_⟩
+      intro x hx
+      simp only [List.mem_cons] at hx
+      rcases hx with rfl | hx
+      · exact specLt_irrefl _
+      · -- x is not below m, and m is not below v
+        have hxm := hmin x (by simpa using hx)
+        cases hxv : specLt x v with
+        | false => rfl
+        | true =>
+          rcases specLt_trichotomy m v hmnn (hl v (by simp)) with h | h | h
+          · simp_all
+          · subst h; simp_all
+          · have := specLt_trans x v m hxv h; simp_all
 
-theorem isMinOf_unique (m m' : Int) (l : List Val) (h : IsMinOf m l) (h' : IsMinOf m' l) : m = m' := by
-  have a := h.2 m' h'.1
-  have b := h'.2 m h.1
-  omega
-
-/-- P (3): over integers the coded `min` is the minimum of the specification's value order. -/
-theorem min_coded_partial (vs : List Val) (hint : (nonNull vs).all isInt = true) :
+/-- P (3): over integers and text that does not read as a number, the coded `min` is the minimum
+of the specification's value order — whatever the order of the input. -/
+theorem min_coded_partial (vs : List Val) (hp : (nonNull vs).all isPlain = true) :
     colAgg .min false vs = ofVal ((specMin (nonNull vs)).getD .null) := by
   unfold colAgg
   rw [foldl_feed_nonNull _ _ (by simp)]
@@ -667,100 +696,115 @@ theorem min_coded_partial (vs : List Val) (hint : (nonNull vs).all isInt = true)
   cases hnn : nonNull vs with
   | nil => simp [specMin, St.finalize]
   | cons v l =>
-    rw [hnn] at hint
-    obtain ⟨ms, hms, hsm⟩ := specMin_ints v l hint
-    cases v with
-    | null => simp [isInt] at hint
-    | str t => simp [isInt] at hint
-    | int i =>
-      simp only [List.all_cons, Bool.and_eq_true] at hint
-      obtain ⟨mc, hmc, hcm⟩ := foldl_minStep_ints i l hint.2
-      have : mc = ms := isMinOf_unique _ _ _ hcm hsm
-      subst this
-      simp [List.foldl_cons, minStep, hmc, hms, St.finalize]
+    rw [hnn] at hp
+    simp only [List.all_cons, Bool.and_eq_true] at hp
+    have hnull : ∀ x ∈ v :: l, x ≠ .null := by
+      intro x hx
+      simp only [List.mem_cons] at hx
+      rcases hx with rfl | hx
+      · exact isPlain_ne_null _ hp.1
+      · exact isPlain_ne_null _ (List.all_eq_true.1 hp.2 _ hx)
+    obtain ⟨ms, hms, hsm⟩ := specMin_isMin v l hnull
+    obtain ⟨mc, hmc, hcm⟩ := foldl_minStep_plain v l hp.1 hp.2
+    have : mc = ms := isMinOf_unique _ _ _ hnull hcm hsm
+    subst this
+    simp [List.foldl_cons, minStep, hmc, hms, St.finalize]
 
-theorem min_eq_spec_partial (vs : List Val) (hint : (nonNull vs).all isInt = true) :
+theorem min_eq_spec_partial (vs : List Val) (hp : (nonNull vs).all isPlain = true) :
     specAgg .min false vs = .ok (colAgg .min false vs) := by
-  simp [specAgg, min_coded_partial vs hint]
+  simp [specAgg, min_coded_partial vs hp]
 
-theorem foldl_maxStep_ints (c : Int) (l : List Val) (hint : l.all isInt = true) :
-    ∃ m, l.foldl maxStep (some (.int c)) = some (.int m) ∧ IsMaxOf m (.int c :: l) := by
+theorem not_lt_of_max_step (c v m : Val) (hc : c ≠ .null) (hm : m ≠ .null)
+    (hcv : specLt c v = false) (hmc : specLt m c = false) : specLt m v = false := by
+  cases hmv : specLt m v with
+  | false => rfl
+  | true =>
+    rcases specLt_trichotomy m c hm hc with h | h | h
+    · simp_all
+    · subst h; simp_all
+    · have := specLt_trans c m v h hmv; simp_all
+
+theorem foldl_maxStep_plain (c : Val) (l : List Val) (hc : isPlain c = true) (hl : l.all isPlain = true) :
+    ∃ m, l.foldl maxStep (some c) = some m ∧ IsMaxOf m (c :: l) := by
   induction l generalizing c with
-  | nil => exact ⟨c, rfl, by simp [IsMaxOf]⟩
+  | nil => exact ⟨c, rfl, by simp [IsMaxOf, specLt_irrefl]⟩
   | cons v vs ih =>
-    simp only [List.all_cons, Bool.and_eq_true] at hint
-    cases v with
-    | null => simp [isInt] at hint
-    | str t => simp [isInt] at hint
-    | int i =>
-      simp only [List.foldl_cons, maxStep, cmpAgg, Option.some.injEq, Int.compare_eq_gt]
-      by_cases hgt : i > c
-      · obtain ⟨m, hm, hmem, hmax⟩ := ih i hint.2
-        refine ⟨m, by simpa [hgt] using hm, ?_, ?_⟩
-        · simp only [List.mem_cons] at hmem ⊢
-          rcases hmem with h | h
-          · exact Or.inr (Or.inl h)
-          · exact Or.inr (Or.inr h)
-        · intro x hx
-          simp only [List.mem_cons, Val.int.injEq] at hx
-          rcases hx with rfl | rfl | hx
-          · have := hmax i (by simp)
-            omega
-          · exact hmax x (by simp)
-          · exact hmax x (by simp [hx])
-      · obtain ⟨m, hm, hmem, hmax⟩ := ih c hint.2
-        refine ⟨m, by simpa [hgt] using hm, ?_, ?_⟩
-        · simp only [List.mem_cons] at hmem ⊢
-          rcases hmem with h | h
-          · exact Or.inl h
-          · exact Or.inr (Or.inr h)
-        · intro x hx
-          simp only [List.mem_cons, Val.int.injEq] at hx
-          rcases hx with rfl | rfl | hx
-          · exact hmax x (by simp)
-          · have := hmax c (by simp)
-            omega
-          · exact hmax x (by simp [hx])
+    simp only [List.all_cons, Bool.and_eq_true] at hl
+    simp only [List.foldl_cons, maxStep]
+    by_cases hgt : specLt c v = true
+    · have hcmp : cmpAgg v c = some .gt := (cmpAgg_gt_iff v c hl.1 hc).2 hgt
+      simp only [hcmp, if_true]
+      obtain ⟨m, hm, hmem, hmax⟩ := ih v hl.1 hl.2
+      refine ⟨m, hm, ?_, ?_⟩
+      · simp only [List.mem_cons] at hmem ⊢
+        rcases hmem with h | h
+        · exact Or.inr (Or.inl h)
+        · exact Or.inr (Or.inr h)
+      · intro x hx
+        simp only [List.mem_cons] at hx
+        rcases hx with rfl | rfl | hx
+        · cases hmx : specLt m x with
+          | false => rfl
+          | true =>
+            have := specLt_trans m x v hmx hgt
+            have := hmax v (by simp)
+            simp_all
+        · exact hmax x (by simp)
+        · exact hmax x (by simp [hx])
+    · have hcmp : ¬ cmpAgg v c = some .gt := fun h => hgt ((cmpAgg_gt_iff v c hl.1 hc).1 h)
+      simp only [hcmp, if_false]
+      obtain ⟨m, hm, hmem, hmax⟩ := ih c hc hl.2
+      have hmnn : m ≠ .null := by
+        simp only [List.mem_cons] at hmem
+        rcases hmem with rfl | h
+        · exact isPlain_ne_null _ hc
+        · exact isPlain_ne_null _ (List.all_eq_true.1 hl.2 _ h)
+      refine ⟨m, hm, ?_, ?_⟩
+      · simp only [List.mem_cons] at hmem ⊢
+        rcases hmem with h | h
+        · exact Or.inl h
+        · exact Or.inr (Or.inr h)
+      · intro x hx
+        simp only [List.mem_cons] at hx
+        rcases hx with rfl | rfl | hx
+        · exact hmax x (by simp)
+        · exact not_lt_of_max_step c x m (isPlain_ne_null _ hc) hmnn (by simpa using hgt) (hmax c (by simp))
+        · exact hmax x (by simp [hx])
 
-theorem specMax_ints (v : Val) (l : List Val) (hint : (v :: l).all isInt = true) :
-    ∃ m, specMax (v :: l) = some (.int m) ∧ IsMaxOf m (v :: l) := by
+theorem specMax_isMax (v : Val) (l : List Val) (hl : ∀ x ∈ v :: l, x ≠ .null) :
+    ∃ m, specMax (v :: l) = some m ∧ IsMaxOf m (v :: l) := by
   induction l generalizing v with
-  | nil =>
-    cases v with
-    | null => simp [isInt] at hint
-    | str t => simp [isInt] at hint
-    | int i => exact ⟨i, rfl, by simp [IsMaxOf]⟩
+  | nil => exact ⟨v, rfl, by simp [IsMaxOf, specLt_irrefl]⟩
   | cons w ws ih =>
-    simp only [List.all_cons, Bool.and_eq_true] at hint
-    obtain ⟨m, hm, hmem, hmax⟩ := ih w (by simp [hint.2.1, hint.2.2])
-    cases v with
-    | null => simp [isInt] at hint
-    | str t => simp [isInt] at hint
-    | int i =>
-      rw [specMax, hm]
-      simp only [specLt, decide_eq_true_eq]
-      by_cases hlt : i < m
-      · refine ⟨m, by simp [hlt], List.mem_cons_of_mem _ hmem, ?_⟩
-        intro x hx
-        simp only [List.mem_cons, Val.int.injEq] at hx
-        rcases hx with rfl | hx
-        · omega
-        · exact hmax x (by simpa using hx)
-      · refine ⟨i, by simp [hlt], by simp, ?_⟩
-        intro x hx
-        simp only [List.mem_cons, Val.int.injEq] at hx
-        rcases hx with rfl | hx
-        · omega
-        · have := hmax x (by simpa using hx)
-          omega
+    obtain ⟨m, hm, hmem, hmax⟩ := ih w (fun x hx => hl x (List.mem_cons_of_mem _ hx))
+    have hmnn : m ≠ .null := hl m (List.mem_cons_of_mem _ hmem)
+    rw [specMax, hm]
+    simp only
+    by_cases hlt : specLt v m = true
+    · refine ⟨m, by simp [hlt], List.mem_cons_of_mem _ hmem, ?_⟩
+      intro x hx
+      simp only [List.mem_cons] at hx
+      rcases hx with rfl | hx
+      · cases h : specLt m x with
+        | false => rfl
+        | true => have := specLt_trans x m x hlt h; simp [specLt_irrefl] at this
+      · exact hmax x (by simpa using hx)
+    · refine ⟨v, by simp [hlt], by simp, ?_⟩
+      intro x hx
+      simp only [List.mem_cons] at hx
+      rcases hx with rfl | hx
+      · exact specLt_irrefl _
+      · have hmx := hmax x (by simpa using hx)
+        cases hvx : specLt v x with
+        | false => rfl
+        | true =>
+          rcases specLt_trichotomy v m (hl v (by simp)) hmnn with h | h | h
+          · simp_all
+          · subst h; simp_all
+          · have := specLt_trans m v x h hvx; simp_all
 
-theorem isMaxOf_unique (m m' : Int) (l : List Val) (h : IsMaxOf m l) (h' : IsMaxOf m' l) : m = m' := by
-  have a := h.2 m' h'.1
-  have b := h'.2 m h.1
-  omega
-
-/-- P (3): over integers the coded `max` is the maximum of the specification's value order. -/
-theorem max_coded_partial (vs : List Val) (hint : (nonNull vs).all isInt = true) :
+/-- P (3): … and the coded `max` is the maximum. -/
+theorem max_coded_partial (vs : List Val) (hp : (nonNull vs).all isPlain = true) :
     colAgg .max false vs = ofVal ((specMax (nonNull vs)).getD .null) := by
   unfold colAgg
   rw [foldl_feed_nonNull _ _ (by simp)]
@@ -774,25 +818,33 @@ theorem max_coded_partial (vs : List Val) (hint : (nonNull vs).all isInt = true)
   cases hnn : nonNull vs with
   | nil => simp [specMax, St.finalize]
   | cons v l =>
-    rw [hnn] at hint
-    obtain ⟨ms, hms, hsm⟩ := specMax_ints v l hint
-    cases v with
-    | null => simp [isInt] at hint
-    | str t => simp [isInt] at hint
-    | int i =>
-      simp only [List.all_cons, Bool.and_eq_true] at hint
-      obtain ⟨mc, hmc, hcm⟩ := foldl_maxStep_ints i l hint.2
-      have : mc = ms := isMaxOf_unique _ _ _ hcm hsm
-      subst this
-      simp [List.foldl_cons, maxStep, hmc, hms, St.finalize]
+    rw [hnn] at hp
+    simp only [List.all_cons, Bool.and_eq_true] at hp
+    have hnull : ∀ x ∈ v :: l, x ≠ .null := by
+      intro x hx
+      simp only [List.mem_cons] at hx
+      rcases hx with rfl | hx
+      · exact isPlain_ne_null _ hp.1
+      · exact isPlain_ne_null _ (List.all_eq_true.1 hp.2 _ hx)
+    obtain ⟨ms, hms, hsm⟩ := specMax_isMax v l hnull
+    obtain ⟨mc, hmc, hcm⟩ := foldl_maxStep_plain v l hp.1 hp.2
+    have : mc = ms := isMaxOf_unique _ _ _ hnull hcm hsm
+    subst this
+    simp [List.foldl_cons, maxStep, hmc, hms, St.finalize]
 
-theorem max_eq_spec_partial (vs : List Val) (hint : (nonNull vs).all isInt = true) :
+theorem max_eq_spec_partial (vs : List Val) (hp : (nonNull vs).all isPlain = true) :
     specAgg .max false vs = .ok (colAgg .max false vs) := by
-  simp [specAgg, max_coded_partial vs hint]
+  simp [specAgg, max_coded_partial vs hp]
 
-/-- W: the full statements are false. Strings that look like numbers are compared as numbers
-("10" vs "9"), and values of different kinds do not compare at all, so the result depends on the
-order of the input. -/
+/-- integers are plain: the integer-only statements are instances -/
+theorem isInt_isPlain (l : List Val) (h : l.all isInt = true) : l.all isPlain = true := by
+  rw [List.all_eq_true] at h ⊢
+  intro x hx
+  have := h x hx
+  cases x <;> simp_all [isInt, isPlain]
+
+/-- W: the full statements are false: text that reads as a number is compared as a number
+("10" vs "9"; the engine stores RDF numeric literals as text). -/
 theorem min_not_spec : ¬ ∀ vs : List Val, specAgg .min false vs = .ok (colAgg .min false vs) := by
   intro h
   exact absurd (h [.str "10", .str "9"]) (by decide)
@@ -805,16 +857,15 @@ theorem min_numeric_strings_witness :
     colAgg .min false [.str "10", .str "9"] = .str "9" ∧ specAgg .min false [.str "10", .str "9"] = .ok (.str "10") := by
   refine ⟨by decide, by decide⟩
 
-/-- W: the coded `min` over values of different kinds depends on the input order (the first value wins). -/
-theorem min_mixed_order_dependent :
-    colAgg .min false [.str "a", .int 1] = .str "a" ∧ colAgg .min false [.int 1, .str "a"] = .int 1 := by
-  refine ⟨by decide, by decide⟩
-
-/-- N -/
-theorem min_max_nonvacuous : colAgg .min false [.int 3, .null, .int (-2), .int 7] = .int (-2) ∧
-    colAgg .max false [.int 3, .null, .int (-2), .int 7] = .int 7 ∧
-    (nonNull [.int 3, .null, .int (-2), .int 7]).all isInt = true := by
-  refine ⟨by decide, by decide, by decide⟩
+/-- N: a column with integers, text and a null: the hypothesis holds, both orders of the input
+give the integer as minimum and the text as maximum. -/
+theorem min_max_nonvacuous :
+    (nonNull [.str "a", .null, .int 1, .int (-2)]).all isPlain = true ∧
+    colAgg .min false [.str "a", .null, .int 1, .int (-2)] = .int (-2) ∧
+    colAgg .min false [.int (-2), .int 1, .null, .str "a"] = .int (-2) ∧
+    colAgg .max false [.str "a", .null, .int 1, .int (-2)] = .str "a" ∧
+    colAgg .max false [.int (-2), .int 1, .null, .str "a"] = .str "a" := by
+  refine ⟨by decide, by decide, by decide, by decide, by decide⟩
 
 /-! ### avg: the float arithmetic
 
@@ -1113,51 +1164,38 @@ theorem fdiv_exact (S : Int) (k : Nat) (hk : 0 < k) (hS : exactInt S = true) (hK
     · rw [qS, qK]
       grind
 
-/-- every value and every running sum is exactly representable -/
-def exactRun (s : Int) : List Val → Bool
-  | [] => true
-  | v :: vs => exactInt (intOf v) && exactInt (s + intOf v) && exactRun (s + intOf v) vs
-
-theorem foldl_update_avg (s c : Int) (l : List Val) (hint : l.all isInt = true) (hs : exactInt s = true)
-    (hr : exactRun s l = true) :
-    l.foldl St.update (.avg (ofInt s) c) = .avg (ofInt (s + intSum l)) (c + l.length) ∧ exactInt (s + intSum l) = true := by
+theorem foldl_update_avg (s c : Int) (l : List Val) (hint : l.all isInt = true) :
+    l.foldl St.update (.avg s 0 c) = .avg (s + intSum l) 0 (c + l.length) := by
   induction l generalizing s c with
-  | nil => simpa [intSum] using hs
+  | nil => simp [intSum]
   | cons v vs ih =>
     simp only [List.all_cons, Bool.and_eq_true] at hint
-    simp only [exactRun, Bool.and_eq_true] at hr
     cases v with
     | null => simp [isInt] at hint
     | str t => simp [isInt] at hint
     | int i =>
-      simp only [intOf] at hr
-      simp only [List.foldl_cons, St.update, valueToF64]
-      rw [fadd_exact s i hs hr.1.1]
-      obtain ⟨h1, h2⟩ := ih (s + i) (c + 1) hint.2 hr.1.2 hr.2
-      rw [h1, intSum_cons]
+      simp only [List.foldl_cons, St.update, avgStep]
+      rw [ih (s + i) (c + 1) hint.2, intSum_cons]
       simp only [intOf, List.length_cons]
-      refine ⟨?_, ?_⟩
-      · congr 1
-        · congr 1; omega
-        · push_cast; omega
-      · rw [← Int.add_assoc]; exact h2
+      congr 1
+      · omega
+      · push_cast; omega
 
-/-- hypothesis of the partial theorem: integers only; every value, every running sum and the
-count convert to a double without rounding -/
+/-- hypothesis of the partial theorem: integers only; their exact sum and their number convert to
+a double without rounding (nothing is asked of the values or of the intermediate sums) -/
 def avgOK (vs : List Val) : Bool :=
-  (nonNull vs).all isInt && exactRun 0 (nonNull vs) && exactInt ((nonNull vs).length : Int)
+  (nonNull vs).all isInt && exactInt (intSum (nonNull vs)) && exactInt ((nonNull vs).length : Int)
 
-/-- P (3): then the coded `avg` is the exact mean rounded once — what the specification demands. -/
+/-- P (3), after the repair (the integers are summed exactly, one conversion, one division): then
+the coded `avg` is the exact mean rounded once — what the specification demands. -/
 theorem avg_eq_spec_partial (vs : List Val) (h : avgOK vs = true) :
     specAgg .avg false vs = .ok (colAgg .avg false vs) := by
   simp only [avgOK, Bool.and_eq_true] at h
   unfold colAgg
   rw [foldl_feed_nonNull _ _ (by simp)]
   simp only [St.init]
-  have h0 : St.avg 0 0 = St.avg (ofInt 0) 0 := by rw [ofInt_zero]
-  obtain ⟨hf, hex⟩ := foldl_update_avg 0 0 (nonNull vs) h.1.1 (by decide +kernel) h.1.2
-  rw [h0, hf]
-  simp only [Int.zero_add] at hex ⊢
+  rw [foldl_update_avg 0 0 (nonNull vs) h.1.1]
+  simp only [Int.zero_add]
   have hspec : specAgg .avg false vs =
       (if !(nonNull vs).all isInt then .err "type"
        else if (nonNull vs).isEmpty then .ok .null
@@ -1166,38 +1204,44 @@ theorem avg_eq_spec_partial (vs : List Val) (h : avgOK vs = true) :
   rw [hspec]
   simp only [hall, Bool.not_true, Bool.false_eq_true, if_false]
   cases hnn : nonNull vs with
-  | nil => simp [St.finalize]
+  | nil => simp [St.finalize, avgOut]
   | cons v l =>
     have hlen : 0 < (nonNull vs).length := by rw [hnn]; simp
     have hne : ((nonNull vs).length : Int) ≠ 0 := by omega
     rw [← hnn]
-    simp only [St.finalize, hne, if_false]
-    rw [fdiv_exact _ _ hlen hex h.2]
+    simp only [St.finalize, avgOut, hne, if_false]
+    -- `int_sum as f64 + 0.0` is `int_sum as f64`
+    have hz : fadd (ofInt (intSum (nonNull vs))) 0 = ofInt (intSum (nonNull vs)) := by
+      have := fadd_exact (intSum (nonNull vs)) 0 h.1.2 (by decide +kernel)
+      rw [ofInt_zero, Int.add_zero] at this
+      exact this
+    rw [hz, fdiv_exact _ _ hlen h.1.2 h.2]
     have hemp : (nonNull vs).isEmpty = false := by rw [hnn]; rfl
     simp only [hemp, Bool.false_eq_true, if_false]
 
-/-- W: the full statement is false: beyond 2^53 the running float sum rounds at every step
-(2^53 + 1 + 1 stays 2^53), so the coded mean is not the rounded exact mean. -/
+/-- W: the full statement is false. Beyond 2^53 the exact sum is rounded when it is converted and
+the quotient is rounded again: (2^53 + 1) / 3 is the integer 3002399751580331, the code returns
+3002399751580330.5. And numeric strings enter the mean (specification: type error). -/
 theorem avg_not_spec : ¬ ∀ vs : List Val, specAgg .avg false vs = .ok (colAgg .avg false vs) := by
   intro h
-  exact absurd (h [.int (2 ^ 53), .int 1, .int 1]) (by decide +kernel)
+  exact absurd (h [.int (2 ^ 53), .int 1, .int 0]) (by decide +kernel)
 
 theorem avg_rounding_witness :
-    colAgg .avg false [.int (2 ^ 53), .int 1, .int 1] = .float 4838367199671702869 ∧
-    specAgg .avg false [.int (2 ^ 53), .int 1, .int 1] = .ok (.float 4838367199671702871) := by
+    colAgg .avg false [.int (2 ^ 53), .int 1, .int 0] = .float 0x4325555555555555 ∧
+    specAgg .avg false [.int (2 ^ 53), .int 1, .int 0] = .ok (.float 0x4325555555555556) := by
   refine ⟨by decide +kernel, by decide +kernel⟩
 
-/-- W: numeric strings enter the mean ("3" and 1 average to 2.0; specification: type error). -/
 theorem avg_numeric_strings_witness :
     colAgg .avg false [.str "3", .int 1] = .float 0x4000000000000000 ∧
     specAgg .avg false [.str "3", .int 1] = .err "type" := by
   refine ⟨by decide +kernel, by decide⟩
 
-/-- N: the hypothesis holds for a column with a null and a negative value; the mean 5/3 is
-0x3ffaaaaaaaaaaaab on both sides. -/
-theorem avg_nonvacuous : avgOK [.int 7, .null, .int (-4), .int 2] = true ∧
-    colAgg .avg false [.int 7, .null, .int (-4), .int 2] = .float 0x3ffaaaaaaaaaaaab := by
-  refine ⟨by decide +kernel, by decide +kernel⟩
+/-- N: the hypothesis holds for a column whose running sum passes 2^53 on the way (2^53, 1, 1: the
+old running float sum lost both ones); the mean (2^53 + 2) / 3 is exact on both sides. -/
+theorem avg_nonvacuous : avgOK [.int (2 ^ 53), .null, .int 1, .int 1] = true ∧
+    colAgg .avg false [.int (2 ^ 53), .null, .int 1, .int 1] = .float 4838367199671702871 ∧
+    specAgg .avg false [.int (2 ^ 53), .null, .int 1, .int 1] = .ok (.float 4838367199671702871) := by
+  refine ⟨by decide +kernel, by decide +kernel, by decide +kernel⟩
 
 /-! ### every integer below 2^53 is exact: the hypothesis of the avg theorem in closed form -/
 
@@ -1297,33 +1341,19 @@ theorem exactInt_small (i : Int) (h : i.natAbs < 2 ^ 53) : exactInt i = true := 
   · simp [h52]
     omega
 
-/-- every value and every running sum is below 2^53 in magnitude -/
-def smallRun (s : Int) : List Val → Bool
-  | [] => true
-  | v :: vs => decide ((intOf v).natAbs < 2 ^ 53) && decide ((s + intOf v).natAbs < 2 ^ 53) && smallRun (s + intOf v) vs
-
-theorem exactRun_of_small (s : Int) (l : List Val) (h : smallRun s l = true) : exactRun s l = true := by
-  induction l generalizing s with
-  | nil => rfl
-  | cons v vs ih =>
-    simp only [smallRun, Bool.and_eq_true, decide_eq_true_eq] at h
-    simp only [exactRun, Bool.and_eq_true]
-    exact ⟨⟨exactInt_small _ h.1.1, exactInt_small _ h.1.2⟩, ih _ h.2⟩
-
-/-- P (3): over integers whose values and running sums stay below 2^53 (and fewer than 2^53 of
-them) the coded `avg` is the exact mean, rounded once to the nearest double. -/
+/-- P (3): over integers whose exact sum is below 2^53 in magnitude (fewer than 2^53 of them),
+the coded `avg` is the exact mean, rounded once to the nearest double. -/
 theorem avg_eq_spec_small (vs : List Val) (hint : (nonNull vs).all isInt = true)
-    (hsm : smallRun 0 (nonNull vs) = true) (hlen : (nonNull vs).length < 2 ^ 53) :
+    (hsum : (intSum (nonNull vs)).natAbs < 2 ^ 53) (hlen : (nonNull vs).length < 2 ^ 53) :
     specAgg .avg false vs = .ok (colAgg .avg false vs) := by
   apply avg_eq_spec_partial
   simp only [avgOK, Bool.and_eq_true]
-  exact ⟨⟨hint, exactRun_of_small _ _ hsm⟩, exactInt_small _ (by simpa using hlen)⟩
+  exact ⟨⟨hint, exactInt_small _ hsum⟩, exactInt_small _ (by simpa using hlen)⟩
 
 /-- N -/
-theorem avg_small_nonvacuous : smallRun 0 (nonNull [.int 7, .null, .int (-4), .int 2]) = true ∧
+theorem avg_small_nonvacuous : (intSum (nonNull [.int 7, .null, .int (-4), .int 2])).natAbs < 2 ^ 53 ∧
     specAgg .avg false [.int 7, .null, .int (-4), .int 2] = .ok (.float 0x3ffaaaaaaaaaaaab) := by
   refine ⟨by decide, by decide +kernel⟩
-
 
 /-! ## 4. the query level -/
 
@@ -1619,11 +1649,10 @@ theorem allOk_noErr (rows : List (List AVal)) :
     intro r _
     exact map_sresVal_ok r
 
-/-- F (2)+(3), end to end on any list of bindings: for a query without `count(*)` whose RETURN
-lists the keys first, if on every group every aggregate cell as coded is the one specified, the
+/-- F (2)+(3), end to end on any list of bindings: for a query whose RETURN lists the keys first, if on every group every aggregate cell as coded is the one specified, the
 whole result as coded — grouping, row layout, ORDER BY, SKIP, LIMIT — is the specified result. -/
 theorem finishAgg_eq_finishSpec (q : AggQ) (bs : List Binding)
-    (hcs : hasCountStar q = false) (hkf : KeysFirst q)
+    (hkf : KeysFirst q)
     (hord : ∀ p ∈ q.orderBy, p.1 < q.items.length)
     (hcells : ∀ k, ∀ it ∈ aggItems q.items,
       specCellOf (groupOf q bs k) it = .ok (codedCell (groupOf q bs k) it)) :
@@ -1657,7 +1686,6 @@ theorem finishAgg_eq_finishSpec (q : AggQ) (bs : List Binding)
     simp [hop p.1 (hord p hp)]
   obtain ⟨e1, e2, e3⟩ := allOk_noErr (aggRows q bs)
   unfold finishAgg finishSpec
-  simp only [hcs, Bool.false_eq_true, if_false]
   have hkeys : (if (keyItems q.items).isEmpty = true then [[]] else dedupKeys ((bs.filter (passes q.preds)).map (keyVals q))) =
       resultKeys q bs := rfl
   simp only [hkeys, hcellsEq, e1, e2, e3, Bool.false_eq_true, if_false]
@@ -1667,39 +1695,32 @@ theorem finishAgg_eq_finishSpec (q : AggQ) (bs : List Binding)
 /-- the aggregates whose coded value is the specified one on every input -/
 def simpleItem : Item → Bool
   | .key _ _ => true
+  | .agg .countStar false _ => true
   | .agg .count _ _ => true
   | .agg .collect _ _ => true
   | _ => false
 
 /-- F, the corollary without residual hypothesis: for every query whose RETURN lists group keys and
-then `count(x)`, `count(DISTINCT x)`, `collect(x)`, `collect(DISTINCT x)` aggregates (over
+then `count(*)`, `count(x)`, `count(DISTINCT x)`, `collect(x)`, `collect(DISTINCT x)` aggregates (over
 properties or variables), on every list of bindings the result as coded is the result specified. -/
 theorem finishAgg_eq_finishSpec_counts (q : AggQ) (bs : List Binding)
     (hs : q.items.all simpleItem = true) (hkf : KeysFirst q) (hord : ∀ p ∈ q.orderBy, p.1 < q.items.length) :
     finishAgg q bs = finishSpec q bs := by
-  apply finishAgg_eq_finishSpec q bs _ hkf hord
-  · intro k it hit
-    have hmem : it ∈ q.items := by
-      simp only [aggItems, List.mem_filter] at hit
-      exact hit.1
-    have hsi := List.all_eq_true.1 hs it hmem
-    cases it with
-    | key v kk => rfl
-    | agg fn d s =>
-      cases fn <;> simp [simpleItem] at hsi
-      · cases d
-        · exact count_eq_spec _
-        · exact count_distinct_eq_spec _
-      · cases d
-        · exact collect_eq_spec _
-        · exact collect_distinct_eq_spec _
-  · unfold hasCountStar
-    rw [List.any_eq_false]
-    intro it hit
-    have hsi := List.all_eq_true.1 hs it hit
-    cases it with
-    | key v kk => simp
-    | agg fn d s => cases fn <;> simp [simpleItem] at hsi <;> simp
+  apply finishAgg_eq_finishSpec q bs hkf hord
+  intro k it hit
+  have hmem : it ∈ q.items := by
+    simp only [aggItems, List.mem_filter] at hit
+    exact hit.1
+  have hsi := List.all_eq_true.1 hs it hmem
+  cases it with
+  | key v kk => rfl
+  | agg fn d s =>
+    cases fn <;> cases d <;> simp [simpleItem] at hsi
+    · exact count_star_eq_spec _
+    · exact count_eq_spec _
+    · exact count_distinct_eq_spec _
+    · exact collect_eq_spec _
+    · exact collect_distinct_eq_spec _
 
 /-! ### from the pipeline's bindings to the enumeration's: counts -/
 
@@ -1723,6 +1744,10 @@ theorem dedupFirst_perm (l1 l2 : List α) (h : l1.Perm l2) : (dedupFirst l1).Per
 
 end DedupPerm
 
+theorem colAgg_countStar_perm (l1 l2 : List Val) (h : l1.Perm l2) :
+    colAgg .count false l1 = colAgg .count false l2 := by
+  rw [count_star_coded, count_star_coded, h.length_eq]
+
 theorem colAgg_count_perm (d : Bool) (l1 l2 : List Val) (h : l1.Perm l2) :
     colAgg .countNonNull d l1 = colAgg .countNonNull d l2 := by
   have hf : (nonNull l1).Perm (nonNull l2) := h.filter _
@@ -1733,9 +1758,10 @@ theorem colAgg_count_perm (d : Bool) (l1 l2 : List Val) (h : l1.Perm l2) :
     simp only [dedupVals]
     rw [this]
 
-/-- keys and `count(x)` / `count(DISTINCT x)` only -/
+/-- keys and `count(*)` / `count(x)` / `count(DISTINCT x)` only -/
 def countItem : Item → Bool
   | .key _ _ => true
+  | .agg .countStar false _ => true
   | .agg .count _ _ => true
   | _ => false
 
@@ -1745,7 +1771,7 @@ theorem countItem_simple (items : List Item) (h : items.all countItem = true) : 
   have := h it hit
   cases it with
   | key v k => rfl
-  | agg fn d s => cases fn <;> simp [countItem] at this <;> rfl
+  | agg fn d s => cases fn <;> cases d <;> simp [countItem] at this <;> rfl
 
 theorem aggRows_perm_counts (q : AggQ) (b1 b2 : List Binding) (h : b1.Perm b2) (hc : q.items.all countItem = true) :
     (aggRows q b1).Perm (aggRows q b2) := by
@@ -1768,8 +1794,10 @@ theorem aggRows_perm_counts (q : AggQ) (b1 b2 : List Binding) (h : b1.Perm b2) (
     cases it with
     | key v kk => rfl
     | agg fn d s =>
-      cases fn <;> simp [countItem] at hci
-      exact colAgg_count_perm d _ _ (hg.map _)
+      cases fn <;> cases d <;> simp [countItem] at hci
+      · exact colAgg_countStar_perm _ _ (hg.map _)
+      · exact colAgg_count_perm false _ _ (hg.map _)
+      · exact colAgg_count_perm true _ _ (hg.map _)
   have : (resultKeys q b1).map (fun k => k.map ofVal ++ (aggItems q.items).map (codedCell (groupOf q b1 k))) =
       (resultKeys q b1).map (fun k => k.map ofVal ++ (aggItems q.items).map (codedCell (groupOf q b2 k))) := by
     apply List.map_congr_left
@@ -1779,7 +1807,7 @@ theorem aggRows_perm_counts (q : AggQ) (b1 b2 : List Binding) (h : b1.Perm b2) (
   exact hkeys.map _
 
 /-- F, from query to answer: for every graph with unique node ids and every chain pattern, a
-`RETURN keys…, count(…)…` query (keys first, no ORDER BY / SKIP / LIMIT) executed by the scan /
+`RETURN keys…, count(*) | count(x) | count(DISTINCT x)…` query (keys first, no ORDER BY / SKIP / LIMIT) executed by the scan /
 expand / aggregate pipeline returns exactly the rows — each the same number of times — that
 grouping and counting the enumeration of all bindings yields. -/
 theorem execAgg_perm_evalAgg_counts (g : Graph) (hu : UniqueIds g) (q : AggQ)
@@ -1789,18 +1817,10 @@ theorem execAgg_perm_evalAgg_counts (g : Graph) (hu : UniqueIds g) (q : AggQ)
   have hperm := c08_pipeline_bindings_perm_enumeration g hu q.core
   have hspec : Spec.evalAgg g q = finishAgg q (Spec.bindings g q.core) :=
     (finishAgg_eq_finishSpec_counts q _ (countItem_simple _ hc) hkf (by simp [ho])).symm
-  have hcs : hasCountStar q = false := by
-    unfold hasCountStar
-    rw [List.any_eq_false]
-    intro it hit
-    have hci := List.all_eq_true.1 hc it hit
-    cases it with
-    | key v kk => simp
-    | agg fn d s => cases fn <;> simp [countItem] at hci <;> simp
   refine ⟨aggRows q (Pipe.bindings g q.core), aggRows q (Spec.bindings g q.core), ?_, ?_, aggRows_perm_counts q _ _ hperm hc⟩
-  · simp [Pipe.execAgg, finishAgg, hcs, ho, hs, hl, window]
+  · simp [Pipe.execAgg, finishAgg, ho, hs, hl, window]
   · rw [hspec]
-    simp [finishAgg, hcs, ho, hs, hl, window]
+    simp [finishAgg, ho, hs, hl, window]
 
 /-- N: two groups over a three-node graph, `RETURN a.k0, count(a.k1), collect(a.k1)` — hypotheses
 hold, both sides return the same two rows; and a sum query through GQL text = through the enumeration. -/
@@ -1817,40 +1837,38 @@ theorem agg_query_nonvacuous :
 
 /-! ## 5. the Gremlin and GraphQL plans against the enumeration -/
 
-theorem map_singleton_nonNull (l : List Val) :
-    (l.map (fun v => [ofVal v])).filter (· != [AVal.null]) = (nonNull l).map (fun v => [ofVal v]) := by
-  induction l with
-  | nil => rfl
-  | cons v vs ih =>
-    cases v <;> simp [nonNull, ofVal] at ih ⊢ <;> exact ih
-
-/-- F: a Gremlin traversal `g.V()…out()/in()/both()…has(…)….values(k)` without dedup / order /
-range / reducing step returns, apart from the nulls it emits for vertices that lack the property,
-exactly the values of the enumeration, the same number of times. -/
+/-- F (after the repair of `values()`): a Gremlin traversal `g.V()…out()/in()/both()…has(…)….values(k)`
+without dedup / order / range / reducing step returns exactly the existing values of the
+enumeration, the same number of times. -/
 theorem gremlin_values_perm (g : Graph) (hu : UniqueIds g) (q : GremQ) (k : Nat)
     (hp : q.proj = some k) (hd : q.dedup = .none) (ho : q.order = none) (hs : q.skip = none) (hl : q.limit = none)
     (ha : q.agg = none) :
-    ∃ r s, Pipe.execGremlin g q = .rows r ∧ Spec.evalGremlin g q = .rows s ∧ (r.filter (· != [AVal.null])).Perm s := by
+    ∃ r s, Pipe.execGremlin g q = .rows r ∧ Spec.evalGremlin g q = .rows s ∧ r.Perm s := by
   have hperm := c08_pipeline_bindings_perm_enumeration g hu q.core
-  refine ⟨(((Pipe.bindings g q.core).filter (passes q.preds)).map (fun b => lastProp b k)).map (fun v => [ofVal v]),
+  refine ⟨(nonNull (((Pipe.bindings g q.core).filter (passes q.preds)).map (fun b => lastProp b k))).map (fun v => [ofVal v]),
     (nonNull (((Spec.bindings g q.core).filter (passes q.preds)).map (fun b => lastProp b k))).map (fun v => [ofVal v]), ?_, ?_, ?_⟩
   · simp [Pipe.execGremlin, gremSteps, hp, hd, ho, hs, hl, ha, window]
   · simp [Spec.evalGremlin, gremSteps, hp, hd, ho, hs, hl, ha, window]
-  · rw [map_singleton_nonNull]
-    have hp2 : (((Pipe.bindings g q.core).filter (passes q.preds)).map (fun b => lastProp b k)).Perm
+  · have hp2 : (((Pipe.bindings g q.core).filter (passes q.preds)).map (fun b => lastProp b k)).Perm
         (((Spec.bindings g q.core).filter (passes q.preds)).map (fun b => lastProp b k)) := (hperm.filter _).map _
     exact (hp2.filter _).map _
 
-/-- F: `count()` straight after the pattern counts the bindings of the enumeration. -/
+/-- F: `count()` after the pattern, or after `values(k)`, counts the bindings (the existing values)
+of the enumeration. -/
 theorem gremlin_count_eq (g : Graph) (hu : UniqueIds g) (q : GremQ)
-    (hp : q.proj = none) (hd : q.dedup = .none) (ho : q.order = none) (hs : q.skip = none) (hl : q.limit = none)
+    (hd : q.dedup = .none) (ho : q.order = none) (hs : q.skip = none) (hl : q.limit = none)
     (ha : q.agg = some .count) :
     Pipe.execGremlin g q = Spec.evalGremlin g q := by
   have hperm := c08_pipeline_bindings_perm_enumeration g hu q.core
-  have hlen : ((Pipe.bindings g q.core).filter (passes q.preds)).length =
-      ((Spec.bindings g q.core).filter (passes q.preds)).length := (hperm.filter (passes q.preds)).length_eq
+  have hkept := hperm.filter (passes q.preds)
+  have hlen : (gremSteps q (Pipe.bindings g q.core)).length = (gremSteps q (Spec.bindings g q.core)).length := by
+    unfold gremSteps
+    simp only [hd, ho, hs, hl, window]
+    cases q.proj with
+    | none => simpa using hkept.length_eq
+    | some k => exact ((hkept.map (fun b => lastProp b k)).filter (· != Val.null)).length_eq
   unfold Pipe.execGremlin Spec.evalGremlin
-  simp only [hp, hd, ho, hs, hl, ha, gremSteps, window, gAggFn]
+  simp only [ho, hs, hl, ha, gAggFn]
   rw [simpleAgg_single, count_star_coded]
   simp [hlen]
 
@@ -1863,8 +1881,8 @@ theorem dedupByLast_ids (bs : List Binding) : (dedupByLast bs).map lastId = dedu
     rw [show dedupFirst (List.map lastId rest) = List.map lastId (dedupByLast rest) from ih.symm, List.filter_map]
     rfl
 
-/-- F (after the repair of `dedup()`): `g.V()…out()….dedup()` returns every vertex the pattern
-reaches exactly once — the distinct current vertices of the enumeration. -/
+/-- F: `g.V()…out()….dedup()` returns every vertex the pattern reaches exactly once — the distinct
+current vertices of the enumeration. -/
 theorem gremlin_dedup_perm (g : Graph) (hu : UniqueIds g) (q : GremQ)
     (hp : q.proj = none) (hd : q.dedup = .nodes) (ho : q.order = none) (hs : q.skip = none) (hl : q.limit = none)
     (ha : q.agg = none) :
@@ -1891,13 +1909,30 @@ theorem graphql_exec_perm_spec (g : Graph) (hu : UniqueIds g) (q : GqlQ)
   have hperm := c08_pipeline_bindings_perm_enumeration g hu q.core
   refine ⟨((Pipe.bindings g q.core).filter (passes q.preds)).map (projA q.cols),
     ((Spec.bindings g q.core).filter (passes q.preds)).map (projA q.cols), ?_, ?_, (hperm.filter _).map _⟩
-  · simp [Pipe.execGraphql, ho, hs, hf, window]
-  · simp [Spec.evalGraphql, ho, hs, hf]
+  · simp [Pipe.execGraphql, gqlFinish, ho, hs, hf, window]
+  · simp [Spec.evalGraphql, gqlFinish, ho, hs, hf, window]
 
-/-- W: as coded, every `orderBy` on a field with a selection set fails, whatever the data. -/
-theorem graphql_orderby_fails (g : Graph) (q : GqlQ) (k : Nat) (asc : Bool) (ho : q.order = some (k, asc)) :
-    Pipe.execGraphql g q = .error "internal" := by
-  simp [Pipe.execGraphql, ho]
+/-- F (after the repair of `orderBy`): as coded and as specified a GraphQL query is the same
+function of the bindings — `orderBy`, `skip`, `first` included; the two differ only in how the
+bindings are found. -/
+theorem graphql_exec_eq_finish (g : Graph) (q : GqlQ) (hw : q.order.isSome ∨ (q.skip = none ∧ q.first = none)) :
+    Pipe.execGraphql g q = .rows (gqlFinish q (Pipe.bindings g q.core)) ∧
+    Spec.evalGraphql g q = .rows (gqlFinish q (Spec.bindings g q.core)) := by
+  refine ⟨rfl, ?_⟩
+  unfold Spec.evalGraphql
+  rcases hw with h | ⟨h1, h2⟩
+  · cases ho : q.order with
+    | none => simp [ho] at h
+    | some x => simp
+  · simp [h1, h2]
+
+/-- N: `{ l0(orderBy: {k9: DESC}) { k9 } }` over two `L0` vertices returns them in descending
+order on both sides (the old plan failed). -/
+theorem graphql_orderby_nonvacuous :
+    let g : Graph := ⟨[⟨0, [0], [(9, .int 0)]⟩, ⟨1, [0], [(9, .int 10)]⟩], []⟩
+    let q : GqlQ := { label := 0, hops := [], preds := [], cols := [(0, 9)], order := some (9, false), skip := none, first := none }
+    Pipe.execGraphql g q = .rows [[.int 10], [.int 0]] ∧ Spec.evalGraphql g q = .rows [[.int 10], [.int 0]] := by
+  refine ⟨by decide, by decide⟩
 
 theorem expandStep_perm_extend (g : Graph) (hu : UniqueIds g) (h : Hop) (a : Node) :
     (Pipe.expandStep g h [a]).Perm (Spec.extend g [h] [a]) := by
@@ -1906,9 +1941,8 @@ theorem expandStep_perm_extend (g : Graph) (hu : UniqueIds g) (h : Hop) (a : Nod
   rw [← h2] at h1
   simpa using h1
 
-/-- F (after the repair of the chain planner): two sibling selections `{ l { k9 t1 { k9 } t2 { k9 } } }`
-return, for every root vertex, every pair of a `t1`-neighbour and a `t2`-neighbour, the same number
-of times as the enumeration. -/
+/-- F: two sibling selections `{ l { k9 t1 { k9 } t2 { k9 } } }` return, for every root vertex,
+every pair of a `t1`-neighbour and a `t2`-neighbour, the same number of times as the enumeration. -/
 theorem graphql_siblings_perm (g : Graph) (hu : UniqueIds g) (label t1 t2 : Nat) :
     ∃ r s, Pipe.execStar g label t1 t2 = .rows r ∧ Spec.evalStar g label t1 t2 = .rows s ∧ r.Perm s := by
   refine ⟨_, _, rfl, rfl, ?_⟩
@@ -1919,8 +1953,6 @@ theorem graphql_siblings_perm (g : Graph) (hu : UniqueIds g) (label t1 t2 : Nat)
   refine (flatMap_perm_pointwise _ _ _ (fun ab _ => p2.map _)).trans ?_
   exact List.Perm.flatMap_right _ p1
 
-/-- N: the graphs on which the old planner ran the siblings as a chain: 0 -T0-> 1 -T1-> 2 has no
-match, 0 -T0-> 1, 0 -T1-> 2 has one. -/
 theorem graphql_siblings_nonvacuous :
     let ns : List Node := [⟨0, [0], [(9, .int 0)]⟩, ⟨1, [0], [(9, .int 10)]⟩, ⟨2, [0], [(9, .int 20)]⟩]
     Pipe.execStar ⟨ns, [⟨0, 0, 1, 0⟩, ⟨1, 1, 2, 1⟩]⟩ 0 0 1 = .rows [] ∧
@@ -1929,7 +1961,6 @@ theorem graphql_siblings_nonvacuous :
     Spec.evalStar ⟨ns, [⟨0, 0, 1, 0⟩, ⟨1, 0, 2, 1⟩]⟩ 0 0 1 = .rows [[.int 0, .int 10, .int 20]] := by
   refine ⟨by decide, by decide, by decide, by decide⟩
 
-/-- N: `g.V().out().dedup()` over two parallel edges returns the target once, on both sides. -/
 theorem gremlin_dedup_nonvacuous :
     let g : Graph := ⟨[⟨0, [], []⟩, ⟨1, [], []⟩], [⟨0, 0, 1, 0⟩, ⟨1, 0, 1, 0⟩]⟩
     let q : GremQ := { start := ⟨none⟩, hops := [⟨none, .out, ⟨none⟩⟩], preds := [], order := none, skip := none,
@@ -1937,39 +1968,41 @@ theorem gremlin_dedup_nonvacuous :
     Pipe.execGremlin g q = .rows [[.int 1]] ∧ Spec.evalGremlin g q = .rows [[.int 1]] := by
   refine ⟨by decide, by decide⟩
 
-/-- W: `values(k)` keeps a null for a vertex without the property, and `count()` counts it. -/
-theorem gremlin_values_missing_witness :
+/-- N: `g.V().values('k0').count()` over one vertex with and one without `k0` is 1 on both sides. -/
+theorem gremlin_values_nonvacuous :
     let g : Graph := ⟨[⟨0, [], [(0, .int 1)]⟩, ⟨1, [], []⟩], []⟩
     let q : GremQ := { start := ⟨none⟩, hops := [], preds := [], order := none, skip := none,
                        limit := none, proj := some 0, dedup := .none, agg := some .count }
-    Pipe.execGremlin g q = .rows [[.int 2]] ∧ Spec.evalGremlin g q = .rows [[.int 1]] := by
+    Pipe.execGremlin g q = .rows [[.int 1]] ∧ Spec.evalGremlin g q = .rows [[.int 1]] := by
   refine ⟨by decide, by decide⟩
 
-/-- W: the operator lays the row out keys first whatever RETURN says; `count(*)` is rejected. -/
-theorem layout_and_count_star_witness :
+/-- W: the operator lays the row out keys first whatever RETURN says (open); `count(*)` counts rows. -/
+theorem layout_witness :
     let g : Graph := ⟨[⟨0, [], [(0, .int 1), (1, .int 7)]⟩, ⟨1, [], [(1, .int 7)]⟩], []⟩
     let q : AggQ := { start := ⟨none⟩, hops := [], preds := [], items := [.agg .count false (.prop 0 0), .key 0 1],
                       orderBy := [], skip := none, limit := none }
     let q2 : AggQ := { q with items := [.agg .countStar false (.node 0)] }
     Pipe.execAgg g q = .rows [[.int 7, .int 1]] ∧ Spec.evalAgg g q = .rows [[.int 1, .int 7]] ∧
-    Pipe.execAgg g q2 = .error "syntax" ∧ Spec.evalAgg g q2 = .rows [[.int 2]] := by
+    Pipe.execAgg g q2 = .rows [[.int 2]] ∧ Spec.evalAgg g q2 = .rows [[.int 2]] := by
   refine ⟨by decide, by decide, by decide, by decide⟩
 
-/-- W: `min` over a string and a number: "10" is parsed and compared with 9 numerically; the
-specification's value order puts strings before numbers. -/
-theorem min_mixed_query_witness :
-    let g : Graph := ⟨[⟨0, [], [(0, .str "10")]⟩, ⟨1, [], [(0, .int 9)]⟩], []⟩
+/-- W: `min` over text that reads as a number and a number: "10" is compared with 9 numerically;
+in the specification's value order every number comes before every string. -/
+theorem min_numeric_text_query_witness :
+    let g : Graph := ⟨[⟨0, [], [(0, .str "10")]⟩, ⟨1, [], [(0, .int 11)]⟩], []⟩
     let q : AggQ := { start := ⟨none⟩, hops := [], preds := [], items := [.agg .min false (.prop 0 0)],
                       orderBy := [], skip := none, limit := none }
-    Pipe.execAgg g q = .rows [[.int 9]] ∧ Spec.evalAgg g q = .rows [[.str "10"]] := by
+    Pipe.execAgg g q = .rows [[.str "10"]] ∧ Spec.evalAgg g q = .rows [[.int 11]] := by
   refine ⟨by decide +kernel, by decide⟩
 
 /-! ## 6. regression: the defects repaired in the code, on the old definitions
 
-The functions below are what the model contained before the repairs (`ValueVector::set_null`
-validity mask, Int64-typed SUM / MIN / MAX columns, `*sum += v` with overflow checks, Cypher
-`count(x)` as COUNT(*), DISTINCT on the factorized aggregate, sibling hops as a chain, whole-row
-`dedup()`); the theorems record how each differed from what the model does now. -/
+The functions below are what the model contained before the repairs; the theorems record how each
+differed from what the model does now. First round: `ValueVector::set_null` validity mask,
+Int64-typed SUM / MIN / MAX columns, Cypher `count(x)` as COUNT(*), DISTINCT on the factorized
+aggregate, sibling hops as a chain, whole-row `dedup()`. Second round: `count(*)` rejected by the
+parsers, SUM switching to a float at an intermediate overflow and AVG adding in floats, MIN / MAX
+depending on the input order, Gremlin `values()` keeping nulls, GraphQL `orderBy` failing. -/
 
 namespace Old
 
@@ -2009,6 +2042,47 @@ theorem execStarChain_witness :
     let ns : List Node := [⟨0, [0], [(9, .int 0)]⟩, ⟨1, [0], [(9, .int 10)]⟩, ⟨2, [0], [(9, .int 20)]⟩]
     execStarChain ⟨ns, [⟨0, 0, 1, 0⟩, ⟨1, 1, 2, 1⟩]⟩ 0 0 1 = .rows [[.int 0, .int 10, .int 20]] ∧
     Pipe.execStar ⟨ns, [⟨0, 0, 1, 0⟩, ⟨1, 1, 2, 1⟩]⟩ 0 0 1 = .rows [] := by
+  refine ⟨by decide, by decide⟩
+
+/-- SUM switched to the float accumulator at the first intermediate sum outside `i64` -/
+def sumSwitch (s : Int) : List Int → AVal
+  | [] => .int s
+  | i :: rest => if inI64 (s + i) then sumSwitch (s + i) rest else .float (rest.foldl (fun f j => fadd f (ofInt j)) (fadd (ofInt s) (ofInt i)))
+
+theorem sumSwitch_witness :
+    sumSwitch 0 [2 ^ 63 - 1, 1, -5] = .float 0x43e0000000000000 ∧
+    colAgg .sum false [.int (2 ^ 63 - 1), .int 1, .int (-5)] = .int (2 ^ 63 - 5) := by
+  refine ⟨by decide +kernel, by decide⟩
+
+/-- AVG added every value to a running float -/
+def avgRunning (l : List Int) : Nat := fdiv (l.foldl (fun f j => fadd f (ofInt j)) 0) (ofInt l.length)
+
+theorem avgRunning_witness :
+    avgRunning [2 ^ 53, 1, 1] = 4838367199671702869 ∧
+    colAgg .avg false [.int (2 ^ 53), .int 1, .int 1] = .float 4838367199671702871 := by
+  refine ⟨by decide +kernel, by decide +kernel⟩
+
+/-- `compare_values` left a number and non-numeric text incomparable: the first value won -/
+def cmpAggOld (a b : Val) : Option Ordering :=
+  match a, b with
+  | .int x, .int y => some (compare x y)
+  | .str x, .str y =>
+    (match parseF64 x.toList, parseF64 y.toList with
+     | some fx, some fy => F64.partialCmp fx fy
+     | _, _ => some (compare x y))
+  | .str s, .int i => (parseF64 s.toList).bind (fun fs => F64.partialCmp fs (ofInt i))
+  | .int i, .str s => (parseF64 s.toList).bind (fun fs => F64.partialCmp (ofInt i) fs)
+  | _, _ => none
+
+theorem cmpAggOld_witness :
+    cmpAggOld (.int 1) (.str "a") = none ∧ cmpAggOld (.str "a") (.int 1) = none ∧
+    cmpAgg (.int 1) (.str "a") = some .lt ∧ cmpAgg (.str "a") (.int 1) = some .gt := by
+  refine ⟨by decide, by decide, by decide, by decide⟩
+
+/-- Gremlin `values(k)` kept a null for a vertex without `k` -/
+theorem values_kept_nulls_witness :
+    let vals : List Val := [.int 1, .null]
+    colAgg .count false vals = .int 2 ∧ colAgg .count false (nonNull vals) = .int 1 := by
   refine ⟨by decide, by decide⟩
 
 end Old
